@@ -259,8 +259,11 @@ impl ValidIsographTemplateLiteral {
                 PathBuf::from(format!("{}", file_to_artifact.display()).replace('\\', "/"));
         }
 
-        // TODO Identify if this is needed
-        if file_to_artifact.starts_with(ISOGRAPH_FOLDER) {
+        // If we do not have to traverse upward, e.g. if the file is in src/ and the artifact
+        // directory is src/ or src/generated/, then the path starts with __isograph/ or
+        // generated/__isograph/. That would be treated as the name of a package, so it must
+        // instead be './...'.
+        if !file_to_artifact.starts_with(".") && !file_to_artifact.starts_with("..") {
             file_to_artifact = PathBuf::from(format!("./{}", file_to_artifact.display()));
         }
 
